@@ -224,6 +224,7 @@ def check_state(g, v, hist, ctx, seen, only=None):
     ctx.state(k64, nontrivial=relabelled and len(m0.hits) > 0 and len(m0.holds) > 0 and len(m0.bpms) >= 2)
     if relabelled and len(hist) == 2 and len(ctx.samples) < 1:
         ctx.sample(case0)
+    kept = []  # (converter, result, canonical form right after the conversion)
     for name, fn, kw, tg in converters(g):
         if only and name != only:
             continue
@@ -297,3 +298,24 @@ def check_state(g, v, hist, ctx, seen, only=None):
             okd = any(d and any(d in x for x in tm_["diff"]) for d in sm_["diff"])
             ctx.check("meta", okd, site=dict(cs, field="difficulty"), case=case, observed=tm_["diff"], expected=sm_["diff"])
         ctx.outcome((name, core.h64([canon.canon_map(t) for _, t in pairs])))
+        kept.append((name, pairs, [canon.canon_map(t) for _, t in pairs]))
+    # a result already handed out must not change when further conversions run (no buffer shared between calls):
+    # convert a second, different source of the same shape (same list sizes, other values) with every converter, then look again
+    if only is None and len(hist) <= 1:
+        try:
+            other, _ = build_source(g, v, hist)
+            for m_ in (other.maps if hasattr(other, "maps") else [other]):
+                for l_ in m_.objs.values():
+                    if len(l_):
+                        l_.df["offset"] = l_.df["offset"] + 123.0
+            for name2, fn2, kw2, tg2 in converters(g):
+                ctx.transition()
+                try:
+                    fn2(other, **kw2)
+                except Exception:
+                    pass
+        except Exception:
+            pass
+    for name, pairs, before_forms in kept:
+        now = [canon.canon_map(t) for _, t in pairs]
+        ctx.check("result.stable", now == before_forms, site=dict(converter=name), case=dict(case0, converter=name), observed="an earlier result changed after later conversions ran", expected="results independent of later calls")
